@@ -3,7 +3,7 @@
 # Confirms: patch applies to a clean checkout of /repo HEAD; with it all 64 baseline tests pass and
 # at least one demo test fails; without it every test (demo included) passes.
 set -u
-ID="$1"; NAME="${2:-$1}"; W=/tmp/wt/$ID; S=$W/seeded
+ID="$1"; NAME="${2:-$1}"; W=${WT:-/tmp/wt}/$ID; S=$W/seeded
 export CARGO_NET_OFFLINE=true
 cd "$W" || exit 2
 [ -f "$S/patch.diff" ] || { echo "no patch.diff"; exit 2; }
